@@ -171,6 +171,12 @@ func checkC11(ctx *Ctx) *Result {
 	checkFirst(ctx, r)
 	r.RuleDocs["R3.1"] = "headers.First: found ⇔ key present with at least one value; returns v[0], v[:1] of that lookup"
 	r.sample(map[string]any{"closure": funcName(rt.Closure), "paths": len(rt.Paths), "preflight_predicate": []string{aOPTIONS, aFoundO, aFoundACRM}})
+	// "reaches the wrapped handler exactly once": the request is not stuck on
+	// the middleware's lock on the way
+	r.share(checkC07(ctx), map[string]string{
+		"R7.2": "every lock acquired by Reconfigure, SetDebug, Config and the request closure is released on every path (a later request is not blocked for ever)",
+		"R7.4": "no interface/dynamic call and no call into module code while the lock is held",
+	}, nil)
 	return r
 }
 
